@@ -235,15 +235,58 @@ def r_fix_narrow(repo, rep, R='R8.5'):
                 continue
             judged += 1
             sufs = []
+
+            def fold(t, depth=0):
+                # the text(s) a small constant expression stands for: literals, tuples, `a + b`, once-bound locals of read_auto
+                if depth > 6:
+                    return None
+                if t[0] == 'const' and isinstance(t[1], str):
+                    return [t[1]]
+                if t[0] == 'tuple':
+                    out_ = []
+                    for x in t[1]:
+                        v = fold(x, depth + 1)
+                        if v is None or len(v) != 1:
+                            return None
+                        out_ += v
+                    return out_
+                if t[0] == 'binop' and t[1] == '+':
+                    a1, a2 = fold(t[2], depth + 1), fold(t[3], depth + 1)
+                    return [a1[0] + a2[0]] if a1 and a2 and len(a1) == 1 and len(a2) == 1 else None
+                if t[0] == 'name':
+                    binds = [a for a in ast.walk(fn) if isinstance(a, ast.Assign) and len(a.targets) == 1 and isinstance(a.targets[0], ast.Name) and a.targets[0].id == t[1]]
+                    if len(binds) == 1:
+                        try:
+                            return fold_ast(binds[0].value, depth + 1)
+                        except ValueError:
+                            return None
+                return None
+
+            def fold_ast(v, depth=0):
+                if depth > 6:
+                    raise ValueError
+                if isinstance(v, ast.Constant) and isinstance(v.value, str):
+                    return [v.value]
+                if isinstance(v, ast.Tuple):
+                    return [fold_ast(x, depth + 1)[0] for x in v.elts]
+                if isinstance(v, ast.BinOp) and isinstance(v.op, ast.Add):
+                    return [fold_ast(v.left, depth + 1)[0] + fold_ast(v.right, depth + 1)[0]]
+                if isinstance(v, ast.Name):
+                    r_ = fold(('name', v.id), depth + 1)
+                    if r_:
+                        return r_
+                raise ValueError
+            unknown = False
             for c_, pol, _n in st.conds:
                 if pol and c_[0] == 'call' and c_[1] == A(N(p_), 'endswith') and len(c_[2]) == 1:
-                    a_ = c_[2][0]
-                    if a_[0] == 'const' and isinstance(a_[1], str):
-                        sufs.append(a_[1])
-                    elif a_[0] == 'tuple' and all(x[0] == 'const' and isinstance(x[1], str) for x in a_[1]):
-                        sufs += [x[1] for x in a_[1]]
+                    v_ = fold(c_[2][0])
+                    if v_ is None:
+                        unknown = True
                     else:
-                        sufs.append(None)
+                        sufs += v_
+            if unknown:
+                rep.ok(R, '%s:%s read_auto.%s' % (RD, f_.lineno, f_.name), 'the suffixes of the [conj] repair are not literal here: not judged', nontrivial=False)
+                continue
             ok = bool(sufs) and all(s_ is not None and s_.endswith('[conj]') and len(s_) > 6 and s_[-7] in ')]' for s_ in sufs)
             rep.check(ok, R, '%s:%s read_auto.%s' % (RD, f_.lineno, f_.name), 'read_auto:fix:narrow',
                       'the trailing [conj] is cut off only after a closing bracket or another feature (%s)' % sufs,
